@@ -3,6 +3,7 @@ package c10
 import (
 	"fmt"
 	"math/rand"
+	"regexp"
 	"strings"
 	"sync"
 	"time"
@@ -44,6 +45,16 @@ type Dialogue struct {
 	Seg        devsim.Seg     `json:"seg"`
 	StallAt    int            `json:"stall_at"` // -1: no stall; else the transport delivers exactly this many bytes
 	TimeoutMS  int            `json:"timeout_ms"`
+	// Custom patterns (regexp source; "" = the library default): the session is configured with
+	// WithUsernamePattern / WithPasswordPattern / WithPassphrasePattern / WithPromptPattern and the
+	// device spells the corresponding prompts so that only the custom pattern accepts them.
+	UserPat   string `json:"user_pattern,omitempty"`
+	PassPat   string `json:"password_pattern,omitempty"`
+	PhrasePat string `json:"passphrase_pattern,omitempty"`
+	PromptPat string `json:"prompt_pattern,omitempty"`
+	// Then: a second dialogue opened (on a fresh driver object) in the same process right after this
+	// one; both are judged.
+	Then *Dialogue `json:"then,omitempty"`
 	// Loss: the connection is lost during the login exchange: "eof" | "err" | "err-timedout" (reads
 	// deliver exactly LossAt bytes, then fail) | "write" (the LossAt-th write, 1-based, and later fail).
 	Loss   string `json:"loss,omitempty"`
@@ -113,6 +124,20 @@ func NewSession(d *Dialogue, tr transport.Implementation, extra []util.Option) (
 		options.WithReadDelay(time.Duration(d.ReadDelay) * time.Microsecond),
 		options.WithTimeoutOps(time.Duration(d.TimeoutMS) * time.Millisecond),
 	}
+	if d.UserPat != "" {
+		opts = append(opts, options.WithUsernamePattern(regexp.MustCompile(d.UserPat)))
+	}
+	if d.PassPat != "" {
+		opts = append(opts, options.WithPasswordPattern(regexp.MustCompile(d.PassPat)))
+	}
+	if d.PhrasePat != "" {
+		opts = append(opts, options.WithPassphrasePattern(regexp.MustCompile(d.PhrasePat)))
+	}
+	promptPat := defaultPromptPattern
+	if d.PromptPat != "" {
+		promptPat = d.PromptPat
+		opts = append(opts, options.WithPromptPattern(regexp.MustCompile(d.PromptPat)))
+	}
 	opts = append(opts, extra...)
 	s := &Session{}
 	var err error
@@ -122,7 +147,7 @@ func NewSession(d *Dialogue, tr transport.Implementation, extra []util.Option) (
 	case "network":
 		opts = append(opts,
 			options.WithPrivilegeLevels(map[string]*network.PrivilegeLevel{
-				"exec": {Name: "exec", Pattern: defaultPromptPattern},
+				"exec": {Name: "exec", Pattern: promptPat},
 			}),
 			options.WithDefaultDesiredPriv("exec"))
 		s.ND, err = network.NewDriver(d.Host, opts...)
@@ -144,25 +169,77 @@ var (
 )
 
 // sessionPatterns returns the patterns a session of this type really uses (taken from a driver
-// constructed exactly as the runner constructs it).
-func sessionPatterns(auth, driver string) *Patterns {
+// constructed exactly as the runner constructs it, custom patterns included).
+func sessionPatterns(of *Dialogue) *Patterns {
 	patMu.Lock()
 	defer patMu.Unlock()
-	k := auth + "/" + driver
+	k := strings.Join([]string{of.Auth, of.Driver, of.UserPat, of.PassPat, of.PhrasePat, of.PromptPat}, "\x00")
 	if p, ok := patCache[k]; ok {
 		return p
 	}
-	d := &Dialogue{Auth: auth, Driver: driver, Host: "h", User: "u", Password: "p", ReadSize: 8192, PSD: 1000, ReturnChar: "\n", ReadDelay: 250, TimeoutMS: 1000}
-	conn := devsim.NewConn(nil, devsim.Config{AuthType: auth})
+	d := &Dialogue{Auth: of.Auth, Driver: of.Driver, Host: "h", User: "u", Password: "p", ReadSize: 8192, PSD: 1000, ReturnChar: "\n", ReadDelay: 250, TimeoutMS: 1000,
+		UserPat: of.UserPat, PassPat: of.PassPat, PhrasePat: of.PhrasePat, PromptPat: of.PromptPat}
+	conn := devsim.NewConn(nil, devsim.Config{AuthType: of.Auth})
 	s, err := NewSession(d, &devsim.AuthConn{Conn: conn}, nil)
 	if err != nil {
 		panic("c10: cannot construct a driver: " + err.Error())
 	}
 	ch := s.Channel()
-	p := &Patterns{Auth: auth, Prompt: ch.PromptPattern, User: ch.UsernamePattern, Password: ch.PasswordPattern, Passphrase: ch.PassphrasePattern}
+	p := &Patterns{Auth: of.Auth, Prompt: ch.PromptPattern, User: ch.UsernamePattern, Password: ch.PasswordPattern, Passphrase: ch.PassphrasePattern,
+		Spec: map[string]*regexp.Regexp{}}
+	if of.UserPat != "" {
+		p.Spec[KUser] = ch.UsernamePattern
+	}
+	if of.PassPat != "" {
+		p.Spec[KPassword] = ch.PasswordPattern
+	}
+	if of.PhrasePat != "" {
+		p.Spec[KPassphrase] = ch.PassphrasePattern
+	}
 	patCache[k] = p
 	return p
 }
+
+var (
+	specMu    sync.Mutex
+	specCache = map[string]*regexp.Regexp{}
+)
+
+// spec is the pattern the dialogue's prompts of this kind are spelled for.
+func (d *Dialogue) spec(kind string) *regexp.Regexp {
+	src := ""
+	switch kind {
+	case KUser:
+		src = d.UserPat
+	case KPassword:
+		src = d.PassPat
+	case KPassphrase:
+		src = d.PhrasePat
+	}
+	if src == "" {
+		return specFor(kind)
+	}
+	specMu.Lock()
+	defer specMu.Unlock()
+	if r, ok := specCache[src]; ok {
+		return r
+	}
+	r := regexp.MustCompile(src)
+	specCache[src] = r
+	return r
+}
+
+// HasCustomPatterns reports whether the session is configured with a custom credential pattern.
+func (d *Dialogue) HasCustomPatterns() bool {
+	return d.UserPat != "" || d.PassPat != "" || d.PhrasePat != ""
+}
+
+// Custom credential patterns and spellings that only they accept.
+const (
+	customUserPat   = `(?im)^(?:user id|benutzer|account name):\s?$`
+	customPassPat   = `(?im)^(?:kennwort|pin|passcode):\s?$`
+	customPhrasePat = `(?i)unlock private key`
+)
 
 // ---------------------------------------------------------------------------------------------
 // generator
@@ -330,6 +407,14 @@ func promptFamily(kind string, d *Dialogue) []string {
 
 func genPromptText(r *rand.Rand, kind string, d *Dialogue) string {
 	base := promptFamily(kind, d)
+	switch {
+	case kind == KUser && d.UserPat != "":
+		base = []string{"User ID:", "Benutzer:", "Account name:"}
+	case kind == KPassword && d.PassPat != "":
+		base = []string{"Kennwort:", "PIN:", "Passcode:"}
+	case kind == KPassphrase && d.PhrasePat != "":
+		base = []string{"Unlock private key '/home/" + d.User + "/.ssh/id_rsa':", "Unlock private key 'id_ed25519':"}
+	}
 	s := mangleCase(r, base[r.Intn(len(base))])
 	if r.Intn(5) < 3 {
 		s += " "
@@ -432,6 +517,10 @@ func genShape(r *rand.Rand, auth string) []string {
 // GenOpts steers GenDialogue.
 type GenOpts struct {
 	NoStall bool
+	// Auth, Driver, PromptPat, if set, are forced. Custom: 0 = custom credential patterns in one
+	// dialogue of ten, 1 = never, 2 = always.
+	Auth, Driver, PromptPat string
+	Custom                  int
 }
 
 // GenDialogue draws one dialogue.
@@ -444,7 +533,30 @@ func GenDialogue(r *rand.Rand, o GenOpts) (Dialogue, GenStats) {
 	} else {
 		d.Driver = []string{"generic", "generic", "network", "netconf", "netconf"}[r.Intn(5)]
 	}
-	p := sessionPatterns(d.Auth, d.Driver)
+	if o.Auth != "" {
+		d.Auth = o.Auth
+	}
+	if o.Driver != "" {
+		d.Driver = o.Driver
+	}
+	if d.Driver != "netconf" {
+		d.PromptPat = o.PromptPat
+	}
+	if o.Custom == 2 || o.Custom == 0 && r.Intn(10) == 0 {
+		// at least one credential kind gets a custom pattern
+		for d.UserPat == "" && d.PassPat == "" && d.PhrasePat == "" {
+			if d.Auth == "telnet" && r.Intn(2) == 0 {
+				d.UserPat = customUserPat
+			}
+			if r.Intn(2) == 0 {
+				d.PassPat = customPassPat
+			}
+			if d.Auth == "ssh" && r.Intn(2) == 0 {
+				d.PhrasePat = customPhrasePat
+			}
+		}
+	}
+	p := sessionPatterns(&d)
 	d.Host = hosts[r.Intn(len(hosts))]
 	d.User = []string{"admin", "netops", "svc-backup", "r.user", "u1", "operator"}[r.Intn(6)]
 	d.Password = "pw" + randStr(r, secretAlpha, 4+r.Intn(10))
@@ -711,7 +823,7 @@ func Sweep(r *rand.Rand) []Dialogue {
 				} else {
 					d.Steps = []Step{{Kind: KPassword, Text: d.User + "@" + d.Host + "'s password: "}, {Kind: KShell}}
 				}
-				addLongMotd(r, sessionPatterns(auth, d.Driver), &d, &st)
+				addLongMotd(r, sessionPatterns(&d), &d, &st)
 				d.FirstOp = op
 				Finish(&d)
 				out = append(out, d)
@@ -729,7 +841,7 @@ func Sweep(r *rand.Rand) []Dialogue {
 			} else {
 				d.Steps = []Step{pw, {Kind: KBanner, Lines: []Line{{S: "Sorry, try again."}}}, pw, {Kind: KShell}}
 			}
-			addNotices(r, sessionPatterns(auth, d.Driver), &d, &st)
+			addNotices(r, sessionPatterns(&d), &d, &st)
 			d.FirstOp = []string{"getprompt", "sendcommand", "readall"}[k%3]
 			Finish(&d)
 			out = append(out, d)
@@ -749,7 +861,7 @@ func Sweep(r *rand.Rand) []Dialogue {
 					n++
 					d := base(auth, drv)
 					txt := promptFamily(kind, &d)[i] + sp
-					p := sessionPatterns(auth, drv)
+					p := sessionPatterns(&d)
 					if !p.promptTextOK(kind, txt) || !p.tailOK(kind, txt, "") {
 						continue
 					}
@@ -875,7 +987,7 @@ func Analyse(d *Dialogue) *Analysis {
 			break
 		}
 		off, end := dev.StepOff[step], dev.StepEnd[step]
-		a.LastCred = [2]int{off + firstMatch(d.Steps[step]), end}
+		a.LastCred = [2]int{off + firstMatch(d.Steps[step], d), end}
 		conn.Write([]byte(cred))
 		conn.Write([]byte(d.ReturnChar))
 	}
@@ -896,7 +1008,7 @@ func Analyse(d *Dialogue) *Analysis {
 		case OutConn:
 			a.Need = off + sshFailureAt(s.Text)
 		case OutAuth:
-			a.Need = off + firstMatch(s)
+			a.Need = off + firstMatch(s, d)
 		case OutOK:
 			if s.Kind == KHello {
 				a.Need = off + strings.Index(string(a.Stream[off:]), "]]>]]>") + 6
